@@ -22,7 +22,9 @@ use crate::report::{Acc, Check, Tier};
 use crate::util;
 use crate::world::{self, Verdict};
 
-pub const DEVIATIONS: [&str; 17] = [
+pub const DEVIATIONS: [&str; 19] = [
+    "co:second-functionary-subdir-missing",
+    "co:second-functionary-subdir-disagrees",
     "inner-links-in-directory-of-name-before-last-dot",
     "inner-signed-by-G-filed-under-F",
     "inner-signed-by-unauthorized-G-under-G",
@@ -44,6 +46,9 @@ pub const DEVIATIONS: [&str; 17] = [
 
 #[derive(Clone, Debug, PartialEq, Eq, Hash, PartialOrd, Ord)]
 pub struct Tree {
+    /// the delegated step needs two functionaries (threshold 2): both file the same
+    /// co-signed sub-layout, each with its own sub-directory
+    pub co: bool,
     /// name of the delegated step
     pub step: &'static str,
     /// "s", "s+t" (t MATCHes s), "t0+s"
@@ -112,7 +117,7 @@ fn build(dir: &Path, tree: &Tree, devs: &BTreeSet<&str>) -> in_toto::models::Met
     let inner = world::layout(inner_steps, vec![], &[k.b, k.h], inner_expiry);
     let signer = if has(devs, "inner-signed-by-G-filed-under-F") || has(devs, "inner-signed-by-unauthorized-G-under-G") { k.g } else { k.f };
     let filed_under = if has(devs, "inner-signed-by-unauthorized-G-under-G") { k.g } else { k.f };
-    let inner_block = world::sign_layout(inner, &[signer]);
+    let inner_block = if tree.co { world::sign_layout(inner, &[signer, k.g]) } else { world::sign_layout(inner, &[signer]) };
     let inner_text = if has(devs, "inner-layout-tampered") {
         let mut v = world::block_value(&inner_block);
         v["signed"]["readme"] = json!("altered after signing");
@@ -172,8 +177,23 @@ fn build(dir: &Path, tree: &Tree, devs: &BTreeSet<&str>) -> in_toto::models::Met
         };
         world::write(&sub, &world::link_file(&name, link_signer), &text);
     }
+    // ---- second functionary of a co-delegated step: same document, own sub-directory
+    if tree.co {
+        world::write(dir, &world::link_file(tree.step, k.g), &inner_text);
+        if !has(devs, "co:second-functionary-subdir-missing") {
+            let sub_g = dir.join(format!("{}.{}", tree.step, k.g.prefix()));
+            std::fs::create_dir_all(&sub_g).unwrap();
+            for i in 1..=n {
+                let mut l = inner_link(i);
+                if i == n && has(devs, "co:second-functionary-subdir-disagrees") {
+                    l.products = world::arts(&[("out", 99)]);
+                }
+                world::write(&sub_g, &world::link_file(&format!("in{i}"), k.b), &world::block_text(&world::sign_link(l, &[k.b])));
+            }
+        }
+    }
     // ---- outer layout
-    let s = world::step(tree.step, 1, &[k.f]);
+    let s = if tree.co { world::step(tree.step, 2, &[k.f, k.g]) } else { world::step(tree.step, 1, &[k.f]) };
     let mut steps = vec![];
     match tree.shape {
         "s+t" => {
@@ -218,11 +238,16 @@ fn expected_summary(tree: &Tree) -> Value {
 }
 
 fn state_json(tree: &Tree, devs: &BTreeSet<&str>) -> Value {
-    json!({"step": tree.step, "shape": tree.shape, "inner_steps": tree.n_inner, "levels": tree.levels, "deviations": devs})
+    json!({"co_delegated": tree.co, "step": tree.step, "shape": tree.shape, "inner_steps": tree.n_inner, "levels": tree.levels, "deviations": devs})
 }
 
 fn applicable(tree: &Tree, d: &str) -> bool {
+    if tree.co && !d.starts_with("co:") {
+        // with two functionaries the single-functionary deviations are explored on the other trees
+        return matches!(d, "inner-expired" | "inner-rule-fails" | "inner-layout-tampered");
+    }
     match d {
+        "co:second-functionary-subdir-missing" | "co:second-functionary-subdir-disagrees" => tree.co,
         "inner-links-in-directory-of-name-before-last-dot" => tree.step.contains('.'),
         "level3-link-missing" | "level3-layout-signed-by-other-key" => tree.levels == 3,
         // with three levels in1's evidence is a sub-layout, link-level deviations on in1 do not apply
@@ -328,7 +353,10 @@ pub fn run(tier: Tier) -> i32 {
                     if !tier.thorough() && (levels == 3 && n_inner == 3 || step != "s" && n_inner == 3) {
                         continue;
                     }
-                    trees.push(Tree { step, shape, n_inner, levels });
+                    trees.push(Tree { co: false, step, shape, n_inner, levels });
+                    if levels == 2 && step == "s" {
+                        trees.push(Tree { co: true, step, shape, n_inner, levels });
+                    }
                 }
             }
         }
@@ -404,7 +432,7 @@ pub fn replay(case: &Value) -> Value {
     }
     let shape = ["s", "s+t", "t0+s"].into_iter().find(|s| Some(*s) == case["shape"].as_str()).unwrap_or("s");
     let step = ["s", "rel.signed", "s p.é"].into_iter().find(|s| Some(*s) == case["step"].as_str()).unwrap_or("s");
-    let tree = Tree { step, shape, n_inner: case["inner_steps"].as_u64().unwrap_or(1) as usize, levels: case["levels"].as_u64().unwrap_or(2) as usize };
+    let tree = Tree { co: case["co_delegated"].as_bool().unwrap_or(false), step, shape, n_inner: case["inner_steps"].as_u64().unwrap_or(1) as usize, levels: case["levels"].as_u64().unwrap_or(2) as usize };
     let devs: BTreeSet<&'static str> = case["deviations"].as_array().map(|a| a.iter().filter_map(|x| DEVIATIONS.iter().copied().find(|d| Some(*d) == x.as_str())).collect()).unwrap_or_default();
     let dir = util::fresh_dir("c15r");
     let lay = build(&dir, &tree, &devs);
